@@ -7,3 +7,13 @@ open XotModel.Props
 #print axioms C15_serialises_false
 #print axioms C15_recursive_form
 #print axioms C15_serialises_partial
+#print axioms C15_recursive_form_inner
+#print axioms C15_serialises_partial_inner
+#print axioms C15_keeps_undeclarations
+#print axioms C15_keeps_undeclarations_at
+#print axioms C15_keeps_undeclarations_unique_needed
+#print axioms C15_idem_partial
+#print axioms C15_idem_partial_tree
+#print axioms C15_idem_partial_noShadowing
+#print axioms C15_idem_needs_noRebind
+#print axioms C15_idem_needs_noFlag
